@@ -268,7 +268,9 @@ FetchCases == FetchScalar \cup FetchEnv \cup FetchBS \cup FetchSec \cup FetchBin
 
 (* --- SEARCH ------------------------------------------------------------------ *)
 NSets == {<<>>, <<<<1, 1>>>>, <<<<1, 3>>>>, <<<<1, 3>>, <<5, 5>>, <<9, 10>>>>, <<<<2, 4>>, <<3, 6>>>>,
-          <<<<7, 7>>, <<2, 2>>>>, <<<<U32MAX1, U32MAX>>>>, <<<<P31, P31>>, <<1, 1>>>>}
+          <<<<7, 7>>, <<2, 2>>>>, <<<<U32MAX1, U32MAX>>>>, <<<<P31, P31>>, <<1, 1>>>>,
+          \* results of a size at which an implementation may start to send them in pieces
+          <<<<1, 2500>>>>, <<<<10, 1009>>, <<5000, 6500>>>>}
 NSetsES == NSets \cup {<<<<1, U32MAX>>>>}          \* too large to enumerate in the SEARCH form
 Rets == {<<>>, <<"ALL">>, <<"MIN">>, <<"MAX">>, <<"COUNT">>, <<"MIN", "MAX", "COUNT">>, <<"ALL", "COUNT">>,
          <<"MIN", "MAX", "ALL", "COUNT">>}
